@@ -551,6 +551,9 @@ func randomHistories(rep *ev.Reporter, alpha []*symbol, seed int64, count, lengt
 			k := ks[h%len(ks)]
 			// a working set of texts somewhat larger than the cache so that eviction happens
 			wset := 2 + r.Intn(len(texts)-1)
+			if h%3 == 0 {
+				wset = len(texts) // every third history draws on all texts
+			}
 			syms := make([]*symbol, length)
 			names := make([]string, length)
 			for i := range syms {
